@@ -167,6 +167,106 @@ def approxPriorReduceOp (k : Nat) : BOp1 α :=
 def map2Op (k : Nat) (f : α → α → α) : BOp2 α :=
   choreo2 k k (fun ea eb => (bcastR ea eb).getD []) (fun ea eb => (bcastR ea eb).isSome) fun a b => T.map2 f a b
 
+/-- a torch elementwise operation on operands with the SAME event shape (`K + noise`, `y - mean`, `mean* + K* α`) -/
+def ewOp (k : Nat) (f : α → α → α) : BOp2 α :=
+  choreo2 k k (fun ea _ => ea) (fun ea eb => ea = eb) fun a b => T.map2 f a b
+
 end GenOps
+
+/-! ### the exact-GP pipeline (ScaleKernel(stationary kernel) + ConstantMean + homoskedastic Gaussian noise)
+
+torch's batched linear algebra enters through four primitives; for each, `…B` is the batched operation on whole tensors
+and `…S` the operation on one batch element.  Shapes innermost-first: inputs `x : (*b, n, d)` are `[d, n] ++ b`, a
+covariance `K(x1, x2) : (*b, n1, n2)` is `[n2, n1] ++ b`. -/
+
+structure TorchPrims (α : Type) where
+  kernB : T α → T α → Option (T α)      -- `(x1/ℓ, x2/ℓ) ↦ k(x1, x2)`: batched `cdist` / matmul + pointwise function
+  kernS : T α → T α → T α
+  solveB : T α → T α → Option (T α)     -- `(K_y, r) ↦ K_y⁻¹ r`: batched Cholesky + triangular solves
+  solveS : T α → T α → T α
+  matvecB : T α → T α → Option (T α)    -- `(K_*, a) ↦ K_* a`: batched matmul
+  matvecS : T α → T α → T α
+  logProbB : T α → T α → Option (T α)   -- `(K_y, r) ↦ log N(r; 0, K_y)`: batched Cholesky, log-determinant, solve
+  logProbS : T α → T α → T α
+
+namespace TorchPrims
+variable (P : TorchPrims α)
+
+def kern : BOp2 α := ⟨2, 2, fun ea eb => [eb.getD 1 0, ea.getD 1 0], fun ea eb => ea.headD 0 = eb.headD 0, P.kernB, P.kernS⟩
+def solve : BOp2 α := ⟨2, 1, fun _ eb => eb, fun ea eb => ea = [eb.headD 0, eb.headD 0], P.solveB, P.solveS⟩
+def matvec : BOp2 α := ⟨2, 1, fun ea _ => [ea.getD 1 0], fun ea eb => ea.headD 0 = eb.headD 0, P.matvecB, P.matvecS⟩
+def logProb : BOp2 α := ⟨2, 1, fun _ _ => [], fun ea eb => ea = [eb.headD 0, eb.headD 0], P.logProbB, P.logProbS⟩
+
+/-- **the assumption about torch**: its batched matmul / Cholesky / solve act per batch element, broadcasting the batch
+dimensions of their operands -/
+def ActPerBatchElement [Inhabited α] : Prop :=
+  P.kern.PerElement ∧ P.solve.PerElement ∧ P.matvec.PerElement ∧ P.logProb.PerElement
+
+end TorchPrims
+
+/-- the scalar operations of the pipeline -/
+structure ScalarOps (α : Type) where
+  div : α → α → α
+  mul : α → α → α
+  add : α → α → α
+  sub : α → α → α
+  zero : α
+
+/-- the inputs of a (batched or non-batched) exact GP: training inputs / targets, test inputs, lengthscale, outputscale,
+mean constant, noise -/
+structure GPInputs (α : Type) where
+  x : T α
+  y : T α
+  xs : T α
+  ℓ : T α
+  os : T α
+  c : T α
+  σ : T α
+
+section ExactGP
+variable [Inhabited α] [Add α] [OfNat α 0] (P : TorchPrims α) (S : ScalarOps α) (I : GPInputs α)
+
+def priorMeanE (x : T α) : BExpr α := .bin constMeanOp (.leaf I.c 0) (.leaf x 2)
+
+def kernelE (x1 x2 : T α) : BExpr α :=
+  .bin (scaleOp S.mul)
+    (.bin P.kern (.bin (lsDivOp S.div) (.leaf x1 2) (.leaf I.ℓ 2)) (.bin (lsDivOp S.div) (.leaf x2 2) (.leaf I.ℓ 2)))
+    (.leaf I.os 0)
+
+/-- `K(x, x) + σ² I` -/
+def noisyCovE : BExpr α :=
+  .bin (ewOp 2 S.add) (kernelE P S I I.x I.x) (.bin (noiseOp S.zero) (.leaf I.σ 1) (priorMeanE I I.x))
+
+/-- `y - m(x)` -/
+def residE : BExpr α := .bin (ewOp 1 S.sub) (.leaf I.y 1) (priorMeanE I I.x)
+
+/-- posterior mean at the test inputs: `m(x*) + K(x*, x) (K(x, x) + σ² I)⁻¹ (y - m(x))` -/
+def posteriorMeanE : BExpr α :=
+  .bin (ewOp 1 S.add) (priorMeanE I I.xs)
+    (.bin P.matvec (kernelE P S I I.xs I.x) (.bin P.solve (noisyCovE P S I) (residE S I)))
+
+/-- `log N(y; m(x), K(x, x) + σ² I)` (before the objective's normaliser) -/
+def logMarginalE : BExpr α := .bin P.logProb (noisyCovE P S I) (residE S I)
+
+/-! the same pipeline as a NON-batched replica computes it (plain functions of event tensors; the choreography steps are the
+generated op lists run on the slices) -/
+
+def priorMeanR (c x : T α) : T α := constMeanOp.single c x
+def kernelR (x1 x2 ℓ os : T α) : T α :=
+  (scaleOp S.mul).single (P.kernS ((lsDivOp S.div).single x1 ℓ) ((lsDivOp S.div).single x2 ℓ)) os
+def noisyCovR (J : GPInputs α) : T α :=
+  (ewOp 2 S.add).single (kernelR P S J.x J.x J.ℓ J.os) ((noiseOp S.zero).single J.σ (priorMeanR J.c J.x))
+def residR (J : GPInputs α) : T α := (ewOp 1 S.sub).single J.y (priorMeanR J.c J.x)
+def posteriorMeanR (J : GPInputs α) : T α :=
+  (ewOp 1 S.add).single (priorMeanR J.c J.xs)
+    (P.matvecS (kernelR P S J.xs J.x J.ℓ J.os) (P.solveS (noisyCovR P S J) (residR S J)))
+def logMarginalR (J : GPInputs α) : T α := P.logProbS (noisyCovR P S J) (residR S J)
+
+/-- the inputs of replica `b`: every tensor's own slice `bidxR (its batch shape) b` -/
+def GPInputs.slice (b : RIdx) : GPInputs α :=
+  let at_ (k : Nat) (t : T α) := elem k t (bidxR (t.shape.drop k) b)
+  ⟨at_ 2 I.x, at_ 1 I.y, at_ 2 I.xs, at_ 2 I.ℓ, at_ 0 I.os, at_ 0 I.c, at_ 1 I.σ⟩
+
+end ExactGP
 
 end Pipeline
